@@ -88,18 +88,35 @@ def check_move_case(case, acc):
     """one caller-owned configuration object; between calls the set of PDS carrier elements is edited in place.
     Packing and recovery must follow the configuration as it is at each call."""
     import copy as _copy
-    isogen.set_live(_copy.deepcopy(isogen.get_cfg(case['base'])))
-    for i, edits in enumerate(case['edits']):
-        for e in edits:
-            isogen.apply_edit(isogen._LIVE['cfg'], e)
-        tmp = core.Acc()
-        check_case({'cfg': 'LIVE', 'enc': case['enc'], 'hex': False, 'seed': case.get('seed', 0), 'f': [],
-                    'pds': case['pds']}, tmp)
-        for sig, (n, dets) in tmp.violations.items():
-            acc.viol(sig.replace('c12.', 'c12.inplace.', 1), case, dets[0]['observed'], dets[0]['expected'],
-                     'step %d, after in-place edits %s of the configuration object' % (i + 1, edits))
-            return
-    acc.case(('move', case['base'], case['enc'], repr(case['pds']), repr(case['edits'])), nontrivial=True,
+    live = saved = None
+    if case.get('default'):
+        # the object edited in place is the PACKAGE's own bit_config, and the calls pass no iso_config (odd steps) or
+        # that very object (even steps)
+        from cardutil import config as libconfig
+        live = libconfig.config['bit_config']
+        saved = _copy.deepcopy(live)
+        isogen.set_live(live)
+    else:
+        isogen.set_live(_copy.deepcopy(isogen.get_cfg(case['base'])))
+    try:
+        for i, edits in enumerate(case['edits']):
+            for e in edits:
+                isogen.apply_edit(isogen._LIVE['cfg'], e)
+            tmp = core.Acc()
+            sub = {'cfg': 'LIVE', 'enc': case['enc'], 'hex': False, 'seed': case.get('seed', 0), 'f': [],
+                   'pds': case['pds']}
+            if case.get('default') and i % 2 == 0:
+                sub['via_default'] = True
+            check_case(sub, tmp)
+            for sig, (n, dets) in tmp.violations.items():
+                acc.viol(sig.replace('c12.', 'c12.inplace.', 1), case, dets[0]['observed'], dets[0]['expected'],
+                         'step %d, after in-place edits %s of the configuration object' % (i + 1, edits))
+                return
+    finally:
+        if live is not None:
+            live.clear()
+            live.update(saved)
+    acc.case(('move', case['base'], case['enc'], repr(case['pds']), repr(case['edits']), case.get('default')), nontrivial=True,
              outcome='inplace')
 
 
@@ -119,6 +136,11 @@ def move_cases(seed):
                 for enc in ('latin_1', 'cp500'):
                     out.append({'kind': 'move', 'base': base, 'enc': enc, 'pds': pds, 'seed': seed,
                                 'edits': [[], off, on, off, []]})
+                    if base == 'PKG':
+                        out.append({'kind': 'move', 'base': base, 'enc': enc, 'pds': pds, 'seed': seed,
+                                    'edits': [[], off, on, off, []], 'default': True})
+                        out.append({'kind': 'move', 'base': base, 'enc': enc, 'pds': pds, 'seed': seed,
+                                    'edits': [off, [], on, off], 'default': True})
     return out
 
 
